@@ -8,6 +8,7 @@
   model column = result of the probe after running the history on ONE model object (`Machine.after`);
   spec column  = result of the probe on a fresh, equally configured model object (`Machine.fresh`: only the explicit
                  re-configuration steps of the history are applied to the configuration).
+  An optional argument written `~` is omitted in the real call (the Python default applies).
   Steps prefixed `sib.` act on a sibling instance, `sing.` on a module-level singleton, `e1.`/`e2.` on the DES objects
   a TDEA owns (machines composed with `Machine.pair`); `h.` / `c.` act on the object an HMAC / a mode shares.
 
@@ -57,32 +58,37 @@ def parsePair {A B : Type} (pa : List String → Option A) (pb : List String →
   | some t => (pb t).map .inr
   | none => (pa toks).map .inl
 
+/-- optional arguments: the token `~` means "argument omitted", i.e. the Python default (None / 0 / False) -/
+def optNat? (s : String) : Option (Option Nat) := if s = "~" then some none else parseOptNat? s
+def natD? (s : String) : Option Nat := if s = "~" then some 0 else parseNat? s
+def boolD? (s : String) : Option Bool := if s = "~" then some false else parseBool? s
+
 def parseOptBytes? (s : String) : Option (Option (List Nat)) :=
   if s = "-" then some none else (parseBytes? s).map some
 
 /-! ### per-kind op parsers -/
 
 def hashOp : List String → Option HashO.Op
-  | ["call", m, bl] => do pure (.call (← parseBytes? m) (← parseOptNat? bl))
-  | ["update", m, bl, p] => do pure (.update (← parseBytes? m) (← parseOptNat? bl) (← parseBool? p))
+  | ["call", m, bl] => do pure (.call (← parseBytes? m) (← optNat? bl))
+  | ["update", m, bl, p] => do pure (.update (← parseBytes? m) (← optNat? bl) (← boolD? p))
   | ["initstate"] => some .initstate
   | _ => none
 
 def keccakOp : List String → Option KeccakO.Op
   | ["call", m] => do pure (.sha3call (← parseBytes? m))
-  | ["call", m, bl, r] => do pure (.call (← parseBytes? m) (← parseOptNat? bl) (← parseOptNat? r))
-  | ["duplex", m, bl, ol] => do pure (.duplex (← parseBytes? m) (← parseOptNat? bl) (← parseOptNat? ol))
+  | ["call", m, bl, r] => do pure (.call (← parseBytes? m) (← optNat? bl) (← optNat? r))
+  | ["duplex", m, bl, ol] => do pure (.duplex (← parseBytes? m) (← optNat? bl) (← optNat? ol))
   | ["setrate", r] => do pure (.setrate (← parseNat? r))
   | _ => none
 
 def md6Op : List String → Option Md6O.Op
-  | ["call", m, bl] => do pure (.call (← parseBytes? m) (← parseOptNat? bl))
+  | ["call", m, bl] => do pure (.call (← parseBytes? m) (← optNat? bl))
   | _ => none
 
 def blakeOp : List String → Option BlakeO.Op
-  | ["call", m, s, bl] => do pure (.call (← parseBytes? m) (← parseNat? s) (← parseOptNat? bl))
-  | ["update", m, bl, p] => do pure (.update (← parseBytes? m) (← parseOptNat? bl) (← parseBool? p))
-  | ["initstate", s] => do pure (.initstate (← parseNat? s))
+  | ["call", m, s, bl] => do pure (.call (← parseBytes? m) (← natD? s) (← optNat? bl))
+  | ["update", m, bl, p] => do pure (.update (← parseBytes? m) (← optNat? bl) (← boolD? p))
+  | ["initstate", s] => do pure (.initstate (← natD? s))
   | _ => none
 
 /-- `k=v,k=v` keyword list of a Blake2 call; returns the parameters and `keylen` -/
@@ -107,7 +113,7 @@ def b2params (tok : String) : Option (Blake2.Params × Nat) :=
 
 def blake2Op : List String → Option Blake2O.Op
   | ["call", m, kw] => do let pk ← b2params kw; pure (.call (← parseBytes? m) pk.1 pk.2)
-  | ["update", m, p] => do pure (.update (← parseBytes? m) (← parseBool? p))
+  | ["update", m, p] => do pure (.update (← parseBytes? m) (← boolD? p))
   | ["initstate", kw] => do let pk ← b2params kw; pure (.initstate pk.1 pk.2)
   | _ => none
 
@@ -116,17 +122,17 @@ def sibKey : List Nat := "another key sharing the hash object".toUTF8.toList.map
 def hmacOp (core : HashCore) (bs : Nat) : List String → Option HmacO.Op
   | ["call", m] => do pure (.call (← parseBytes? m))
   | ["setkey", k] => if k = "None" then some (.setkey none) else do pure (.setkey (some (← parseBytes? k)))
-  | ["h.call", m, bl] => do pure (.hcall (← parseBytes? m) (← parseOptNat? bl))
-  | ["h.update", m, bl, p] => do pure (.hupdate (← parseBytes? m) (← parseOptNat? bl) (← parseBool? p))
+  | ["h.call", m, bl] => do pure (.hcall (← parseBytes? m) (← optNat? bl))
+  | ["h.update", m, bl, p] => do pure (.hupdate (← parseBytes? m) (← optNat? bl) (← boolD? p))
   | ["sib.call", m] => do
       let k ← (HmacO.keyOf core bs sibKey).toOption
       pure (.sibcall k (← parseBytes? m))
   | _ => none
 
 def tlshOp : List String → Option TlshO.Op
-  | ["call", d, f] => do pure (.call (← parseBytes? d) (← parseBool? f))
+  | ["call", d, f] => do pure (.call (← parseBytes? d) (← boolD? f))
   | ["update", d] => do pure (.update (← parseBytes? d))
-  | ["final", d, f] => do pure (.final (← parseBytes? d) (← parseBool? f))
+  | ["final", d, f] => do pure (.final (← parseBytes? d) (← boolD? f))
   | ["digest"] => some .digest
   | ["from_hash", d] => do pure (.from_hash (← parseBytes? d))
   | ["reset"] => some .reset
